@@ -92,6 +92,45 @@ NOT_HEADS = {"eOP_XPATH", "eOP_BOOL", "eOP_ARGUMENT", "eOP_PREDICATE", "eOP_PRED
              "eOP_LOCATIONPATHPATTERN", "eOP_EXTFUNCTION"}
 
 
+def subst_var(e, a, b):
+    if isinstance(e, dict):
+        if e.get("op") == "var" and e.get("name") == a:
+            return var(b)
+        return {k: subst_var(v, a, b) for k, v in e.items()}
+    if isinstance(e, list):
+        return [subst_var(x, a, b) for x in e]
+    return e
+
+
+def recycle_family():
+    """PAIRS of evaluations that run one after the other in one process with one object factory: the value objects bound to $e / $n / $s in
+    the first are released when it ends and recycled for the second.  First a value is asked for one conversion (which the object may
+    cache), then another value, in a recycled object, for each conversion.  Document 4: c(@x=10, b(-2), b(0.5), b(abc), b( 4 ), b())."""
+    D = 4
+    ns_ = lambda *ids: {"t": "ns", "v": [[D, i, 0] for i in ids]}
+    nv = lambda m, neg=False: {"t": "num", "v": {"k": "fin", "neg": neg, "m": m}}
+    sv = lambda t_: {"t": "str", "v": xdm.cps(t_)}
+    base = {"n": nv(12), "s": sv("2"), "b": {"t": "bool", "v": False}, "e": ns_(4), "z": ns_()}
+    E_, N_, S_ = var("e"), var("n"), var("s")
+    conv = lambda v_: [v_, fn("number", v_), fn("string", v_), fn("boolean", v_), bin_("+", v_, num(0)), fn("string-length", v_), fn("not", v_),
+                       bin_("div", num(1), v_)]
+    fam = [("e", [ns_(), ns_(12), ns_(8), ns_(6)], [ns_(), ns_(4), ns_(6), ns_(10), ns_(8), ns_(12), ns_(3), ns_(4, 6)], conv(E_) + [fn("count", E_)]),
+           ("n", [{"t": "num", "v": {"k": "nan", "neg": False, "m": 0}}, nv(0, True), nv(0), nv(12)], [{"t": "num", "v": {"k": "nan", "neg": False, "m": 0}}, nv(0, True), nv(0), nv(12), nv(8, True)], conv(N_)),
+           ("s", [sv(""), sv("x"), sv("2"), sv("-0")], [sv(""), sv("2"), sv("x"), sv(" 3 "), sv("-0"), sv("0")], conv(S_))]
+    out = []
+    for name, poisons, probes, exprs in fam:
+        for v1 in poisons:
+            for x1 in exprs:
+                for v2 in probes:
+                    for x2 in exprs:
+                        out.append((D, 2, 1, 1, x1, dict(base, **{name: v1})))
+                        out.append((D, 2, 1, 1, x2, dict(base, **{name: v2})))
+                        if name == "e":     # which of the two released node-set objects the next $e gets is the factory's business: use the other one too
+                            out.append((D, 2, 1, 1, subst_var(x1, "e", "z"), dict(base, z=v1)))
+                            out.append((D, 2, 1, 1, x2, dict(base, **{name: v2})))
+    return out
+
+
 def opcodes_in_source():
     txt = open(os.path.join(REPO, "src/xalanc/XPath/XPathExpression.hpp")).read()
     return sorted(set(re.findall(r"\b(eOP_[A-Z0-9_]+)\s*=\s*\d+", txt)))
@@ -126,9 +165,14 @@ def run(res, tier, seed):
                 v["z"] = {"t": "ns", "v": []}
                 size = rng.randint(1, 3)
                 cases.append((d + 1, ctx, rng.randint(1, size), size, e, v))
+    rec = recycle_family()
+    if tier == "quick":
+        rec = [c_ for k_ in range(0, len(rec), 2) if (k_ // 2) % 3 == seed % 3 for c_ in rec[k_:k_ + 2]]
+    res.notes["recycle_pairs"] = len(rec) // 2
+    cases = rec + cases
     events = []
     for kind in KINDS:
-        evs, crashes = c02.run_cases(docs, flats, cases, wd, mode=kind, tag="c11" + kind)
+        evs, crashes = c02.run_cases(docs, flats, cases, wd, mode=kind, tag="c11" + kind, contiguous=True)
         for c, err, rc in crashes:
             res.violation("evaluator process died (rc=%s) in entry point %s on %s: %s" % (rc, kind, c["text"], err), [dict(c, kind=kind)])
         events += evs
